@@ -122,6 +122,28 @@ def show_items(items):
     return repr(list(items))
 
 
+class LazyVal:
+    """a symbolic input whose shape (e.g. None / Some(x)) is chosen only when the program first looks at it"""
+    __slots__ = ('thunk', 'val', 'forced', 'label')
+
+    def __init__(self, thunk, label='lazy'):
+        self.thunk = thunk
+        self.val = None
+        self.forced = False
+        self.label = label
+
+    def force(self):
+        if not self.forced:
+            self.val = self.thunk()
+            self.forced = True
+            while isinstance(self.val, LazyVal):
+                self.val = self.val.force()
+        return self.val
+
+    def __repr__(self):
+        return '<lazy %s%s>' % (self.label, (' = %r' % (self.val,)) if self.forced else '')
+
+
 class Ref:
     __slots__ = ('cont', 'key')
 
@@ -131,9 +153,16 @@ class Ref:
 
     def get(self):
         try:
-            return self.cont[self.key]
+            v = self.cont[self.key]
         except (KeyError, IndexError):
             return UNINIT
+        if type(v) is LazyVal:
+            v = v.force()
+            try:
+                self.cont[self.key] = v
+            except TypeError:
+                pass
+        return v
 
     def set(self, v):
         c = self.cont
